@@ -156,29 +156,48 @@ class C15(Prop):
                     elif 'ser==' not in o: why = 'serializing the decoded item does not reproduce the original bytes'
             if why: fails.append({'input': l, 'expected': 'item %s(%s) and identical bytes back (NaN: canonical)' % (k, 'NaN' if nan else val), 'observed': o[:200], 'why': why})
         # the getters of the item API: the width-specific getter returns the stored bits, cbor_float_get_float the exactly converted double
-        gl = []
-        for h in halves[:: 1 if tier == 'thorough' else 7]:
+        gl = []     # (kind, stored bits, expected serialization or None for NaN)
+        kinds = lambda k: (k, k + '!', k + '!!')      # cbor_build_*, cbor_new_* + cbor_set_*, set to the opposite sign first and then to the value
+        for h in halves[:: 1 if tier == 'thorough' else 7] + [0x0000, 0x8000, 0x7c00, 0xfc00, 0x0001, 0x8001, 0x7bff, 0xfbff, 0x3c00]:
             v = half_f32(h)
-            if v is not None: gl.append(('h', v)); gl.append(('h!', v))
-        for b in Ss[:: 1 if tier == 'thorough' else 3]:
-            if not gen.is_nan32(b): gl.append(('s', b)); gl.append(('s!', b))
-        for b in Ds[:: 1 if tier == 'thorough' else 3]:
-            if not is_nan64(b): gl.append(('d', b)); gl.append(('d!', b))
-        glines = ['FLTGET %s(%d)' % (k, b) for k, b in gl]
+            if v is not None:
+                for kk in kinds('h'): gl.append((kk, v, 'f9%04x' % h))
+        for b in Ss[:: 1 if tier == 'thorough' else 3] + [0, 1 << 31, 0x7f800000, 0xff800000, 1, 0x80000001]:
+            if not gen.is_nan32(b):
+                for kk in kinds('s'): gl.append((kk, b, 'fa%08x' % b))
+        for b in Ds[:: 1 if tier == 'thorough' else 3] + [0, 1 << 63, 0x7ff0000000000000, 0xfff0000000000000, 1, (1 << 63) + 1]:
+            if not is_nan64(b):
+                for kk in kinds('d'): gl.append((kk, b, 'fb%016x' % b))
+        # items holding a NaN with any payload, through the item API: still a NaN when read back, canonical quiet NaN of the width when serialized
+        nan32 = [0x7fc00000, 0xffc00000, 0x7f800001, 0xff800001, 0x7fffffff, 0xffffffff, 0x7f800fff, 0x7f801000, 0x7f802000, 0x7fa00000, 0x7fbfffff, 0xff800800, 0x7fffe000, 0xffffe000, 0x7fc00001]
+        nan64 = [0x7ff8000000000000, 0xfff8000000000000, 0x7ff0000000000001, 0xfff0000000000001, 0x7fffffffffffffff, 0xffffffffffffffff, 0x7ff00000ffffffff, 0x7ff4000000000000, 0x7ff0000100000000]
+        for b in nan32:
+            for kk in kinds('h') + kinds('s'): gl.append((kk, b, None))
+        for b in nan64:
+            for kk in kinds('d'): gl.append((kk, b, None))
+        glines = ['FLTGET %s(%d)' % (k, b) for k, b, _ in gl]
         go_, rc, err = ctx.run_c(glines)
         if rc != 0:
             i, l, e = core.first_crash_line(ctx.harness, glines)
             return fails + [{'input': l, 'expected': 'values', 'observed': 'implementation aborted (UBSan/ASan)', 'why': e[-600:]}]
-        for (k, b), l, o in zip(gl, glines, go_):
-            ctx.count(l, o); ctx.bump('getter_' + k[0])
-            if k[0] == 'd': expw, expd = 64, b
-            else:
-                expw = 16 if k[0] == 'h' else 32
-                expd = struct.unpack('>Q', struct.pack('>d', struct.unpack('>f', struct.pack('>I', b))[0]))[0]
-            exp = '%d %d %d' % (expw, b, expd)
+        for (k, b, ser), l, o in zip(gl, glines, go_):
+            ctx.count(l, o); ctx.bump('getter_' + k[0] + ('_nan' if ser is None else ''))
+            expw = {'h': 16, 's': 32, 'd': 64}[k[0]]
+            if ser is None:
+                w = o.replace('ser=', '').split()
+                canon = {'h': 'f97e00', 's': 'fa7fc00000', 'd': 'fb7ff8000000000000'}[k[0]]
+                okv = len(w) == 4 and w[0] == str(expw) and (is_nan64(int(w[1])) if k[0] == 'd' else gen.is_nan32(int(w[1]))) and is_nan64(int(w[2]))
+                if not okv:
+                    fails.append({'input': l, 'expected': '%d <a NaN> <a NaN> ser=%s' % (expw, canon), 'observed': o, 'why': 'an item set to a NaN does not read back as a NaN'})
+                elif w[3] != canon:
+                    fails.append({'input': l, 'expected': '%d <a NaN> <a NaN> ser=%s' % (expw, canon), 'observed': o, 'why': 'an item holding a NaN does not serialize as the canonical quiet NaN of its width'})
+                continue
+            if k[0] == 'd': expd = b
+            else: expd = struct.unpack('>Q', struct.pack('>d', struct.unpack('>f', struct.pack('>I', b))[0]))[0]
+            exp = '%d %d %d ser=%s' % (expw, b, expd, ser)
             if o != exp:
-                fails.append({'input': l, 'expected': exp + '  (width, stored bits, bits of the exactly converted double)', 'observed': o,
-                              'why': 'a float getter does not return the value the item holds (width-specific getter / cbor_float_get_float)'})
+                fails.append({'input': l, 'expected': exp + '  (width, stored bits, bits of the exactly converted double, bytes)', 'observed': o,
+                              'why': 'a float item does not hold / return / serialize the value it was given (width-specific getter, cbor_float_get_float, cbor_serialize)'})
         # blocks of 65536 consecutive singles: C vs generated model digests (also runs cbor_encode_half on each under UBSan)
         step = 1 if tier == 'thorough' else 61
         his = sorted(set(range(0, 65536, step)) | {0, 0x0080, 0x3300, 0x3380, 0x3880, 0x477f, 0x4780, 0x7f80, 0x7fc0, 0x8000, 0xb300, 0xff80, 0xffff})
